@@ -1,5 +1,381 @@
-"""C17.R7 (thorough tier): template taint. Implemented in a later step; until then it only records that it did not run."""
+"""C17.R7 (thorough tier): template taint over the code generator.
+
+Every interpolation ``{expr}`` of an f-string that contributes to emitted source is classified by the
+syntactic context the surrounding template text puts it in (code, '...' literal, "..." literal, docstring,
+comment) and by the *kind* of the interpolated value:
+
+  CLEAN    generator-controlled text (constants, flags, indentation, sanitised upstream)
+  IDENT    result of to_identifier / IdentifierAllocator.allocate / camel_to_snake  ([A-Za-z0-9_] only)
+  LITERAL  result of literal() / repr() / json.dumps() / !r                       (a complete Python literal)
+  DOCSAFE  result of docstring_safe()              (no quotes-of-the-docstring, backslashes or line breaks)
+  ESCAPED  result of escape_for_string()           (quotes and backslashes escaped, line breaks NOT)
+  CODE     a fragment already composed from safely interpolated parts
+  RAW      a string that comes from the machine JSON unchanged (names, ids, event types, targets ...)
+
+A value is safe in a context only per SAFE below.  Kinds are propagated through local assignments, loops,
+str methods, joins and - to a fixpoint - into parameters over the CLI call graph.  This decides the clause
+"arbitrary strings in the JSON reach generated files only as data, never as code" as far as it is visible in
+the templates; it does not decide what the verifier would refuse at run time.
+"""
+from __future__ import annotations
+
+import ast
+from typing import Dict, List, Optional, Set, Tuple
+
+from sa.program import FuncInfo, dotted, norm, own_nodes
+from sa.util import ancestors, assignments_to, parents
+
+EMITTER_MODULES = ("cli.generator", "cli.builders", "cli.emit", "cli.strategies._shared", "cli.strategies.class_json",
+                   "cli.strategies.function_json", "cli.strategies.pythonic_builder", "cli.strategies.pythonic_class",
+                   "cli.strategies.pythonic_functional")
+ORDER = ["CLEAN", "IDENT", "LITERAL", "CODE", "DOCSAFE", "ESCAPED", "RAW"]
+SAFE = {
+    "code": {"CLEAN", "IDENT", "LITERAL", "CODE"},
+    "sq": {"CLEAN", "IDENT"},
+    "dq": {"CLEAN", "IDENT", "DOCSAFE"},
+    "doc": {"CLEAN", "IDENT", "DOCSAFE"},
+    "comment": {"CLEAN", "IDENT", "DOCSAFE", "LITERAL", "CODE"},
+}
+SANITISERS = {"literal": "LITERAL", "repr": "LITERAL", "dumps": "LITERAL", "to_identifier": "IDENT", "allocate": "IDENT",
+              "camel_to_snake": "IDENT", "_snake": "IDENT", "safe_identifier": "IDENT", "docstring_safe": "DOCSAFE",
+              "escape_for_string": "ESCAPED", "len": "CLEAN", "str": None, "int": "CLEAN", "bool": "CLEAN", "type": "CLEAN"}
+# attributes that hold strings copied from the machine JSON
+RAW_ATTRS = {"key", "dotted", "type", "src", "target", "event", "initial", "custom_id", "delay", "history_kind", "machine_id",
+             "machine_ids", "actions", "guards", "services", "tags", "meta", "params", "context", "path"}
+RAW_ATTRS_BY_RECV = {"id"}          # machine.id / inv.id are raw; ctx has no 'id'
+CLEAN_ATTRS = {"machine_name", "machine_names", "json_filenames", "file_count", "is_async", "log", "sleep", "sleep_time", "loader",
+               "style", "hierarchy", "kind", "reenter", "internal", "is_leaf", "is_composite", "is_parallel", "children", "states",
+               "transitions", "after", "always", "invoke", "on_done", "on_error", "entry", "exit", "guard", "root", "configs"}
+MESSAGE_CALLS = {"debug", "info", "warning", "error", "exception", "critical", "print", "_safe_print", "append_problem"}
+PASS_METHODS = {"upper", "lower", "title", "capitalize", "strip", "lstrip", "rstrip"}
+
+
+def worst(*ks):
+    ks = [k for k in ks if k]
+    return max(ks, key=ORDER.index) if ks else "CLEAN"
+
+
+class Taint:
+    def __init__(self, ctx):
+        self.ctx = ctx
+        self.p = ctx.p
+        res = ctx.r
+        logic_roots = [f for f in self.p.all_funcs if f.module.name.startswith("cli.strategies.") and f.name == "generate_logic" and f.cls is not None and f.cls.name != "GenerationStrategy"]
+        runner_roots = [f for f in self.p.all_funcs if f.module.name.startswith("cli.strategies.") and f.name == "generate_runner" and f.cls is not None and f.cls.name != "GenerationStrategy"]
+        self.logic = {q for q, (f, _) in res.closure(logic_roots, None).items() if f.module.name.startswith("cli")}
+        self.runner = {q for q, (f, _) in res.closure(runner_roots, None).items() if f.module.name.startswith("cli")}
+        self.funcs = [f for f in self.p.all_funcs if f.qualname in (self.logic | self.runner) and f.module.name in EMITTER_MODULES]
+        self.n_roots = (len(logic_roots), len(runner_roots))
+        self.byname: Dict[str, List[FuncInfo]] = {}
+        for f in self.funcs:
+            self.byname.setdefault(f.name, []).append(f)
+        self.param_kind: Dict[Tuple[str, str], str] = {}
+        self.ret_kind: Dict[str, str] = {}
+        self._seed_params()
+
+    def _seed_params(self):
+        for f in self.funcs:
+            for a in f.node.args.args + f.node.args.kwonlyargs:
+                ann = norm(a.annotation) if a.annotation is not None else ""
+                k = "CLEAN"
+                if a.arg in ("items", "actions", "guards", "services", "events") and "Set[str]" in ann or a.arg == "events":
+                    k = "RAW"
+                if a.arg in ("original", "raw_name", "event_name"):
+                    k = "RAW"
+                self.param_kind[(f.qualname, a.arg)] = k
+
+    # -------------------------------------------------------------- kinds
+    def kind(self, f: FuncInfo, e: ast.AST, env: Dict[str, str], depth=0) -> str:
+        if e is None or depth > 6:
+            return "CLEAN"
+        if isinstance(e, ast.Constant):
+            return "CLEAN"
+        if isinstance(e, ast.Name):
+            if e.id in env:
+                return env[e.id]
+            return self.param_kind.get((f.qualname, e.id), self.param_kind.get((f.outermost.qualname, e.id), "CLEAN"))
+        if isinstance(e, ast.JoinedStr):
+            return "CODE"          # interpolations are judged at their own site
+        if isinstance(e, ast.FormattedValue):
+            return self.kind(f, e.value, env, depth + 1)
+        if isinstance(e, ast.Attribute):
+            base = dotted(e.value) or ""
+            if e.attr in CLEAN_ATTRS:
+                return "CLEAN"
+            if e.attr in RAW_ATTRS:
+                return "RAW"
+            if e.attr in RAW_ATTRS_BY_RECV and base not in ("self", "ctx"):
+                return "RAW"
+            return self.kind(f, e.value, env, depth + 1) if not isinstance(e.value, ast.Name) or e.value.id not in ("self", "ctx", "cls") else "CLEAN"
+        if isinstance(e, ast.Subscript):
+            return self.kind(f, e.value, env, depth + 1)
+        if isinstance(e, ast.Call):
+            fn = e.func
+            name = fn.id if isinstance(fn, ast.Name) else (fn.attr if isinstance(fn, ast.Attribute) else "")
+            if name in SANITISERS and SANITISERS[name]:
+                ak = worst(*[self.kind(f, a, env, depth + 1) for a in e.args]) if e.args else "RAW"
+                if name in ("escape_for_string", "docstring_safe") and ak in ("CLEAN", "IDENT"):
+                    return ak           # escaping an identifier leaves an identifier
+                return SANITISERS[name]
+            if name == "str" and e.args:
+                return self.kind(f, e.args[0], env, depth + 1)
+            if isinstance(fn, ast.Attribute):
+                recv_k = self.kind(f, fn.value, env, depth + 1)
+                if name == "join":
+                    return worst(recv_k, *[self.kind(f, a, env, depth + 1) for a in e.args])
+                if name in PASS_METHODS:
+                    return recv_k
+                if name in ("replace", "format", "split", "removeprefix", "removesuffix", "ljust", "rjust"):
+                    ak = worst(*[self.kind(f, a, env, depth + 1) for a in e.args])
+                    if recv_k == "IDENT" and ak == "CLEAN":
+                        return "DOCSAFE"
+                    return worst(recv_k, ak)
+                if name in ("get", "items", "values", "keys", "copy", "pop"):
+                    return recv_k
+                if name in ("leaf_names",):
+                    return "RAW"
+            if name in ("sorted", "list", "set", "tuple", "reversed", "enumerate", "zip", "filter", "iter", "next", "max", "min"):
+                return worst(*[self.kind(f, a, env, depth + 1) for a in e.args])
+            if name in ("extract_events", "demo_events", "reachable_event_sequence"):
+                return "RAW"
+            if name in ("allocate_bindings",):
+                return "IDENT"
+            if name in self.byname:
+                return worst(*[self.ret_kind.get(g.qualname, "CODE") for g in self.byname[name]])
+            ak = worst(*[self.kind(f, a, env, depth + 1) for a in e.args] + [self.kind(f, k.value, env, depth + 1) for k in e.keywords])
+            return "RAW" if ak == "RAW" else ("CLEAN" if ak == "CLEAN" else ak)
+        if isinstance(e, ast.BinOp):
+            return worst(self.kind(f, e.left, env, depth + 1), self.kind(f, e.right, env, depth + 1))
+        if isinstance(e, ast.IfExp):
+            return worst(self.kind(f, e.body, env, depth + 1), self.kind(f, e.orelse, env, depth + 1))
+        if isinstance(e, ast.BoolOp):
+            return worst(*[self.kind(f, v, env, depth + 1) for v in e.values])
+        if isinstance(e, (ast.List, ast.Tuple, ast.Set)):
+            return worst(*[self.kind(f, x, env, depth + 1) for x in e.elts])
+        if isinstance(e, ast.Starred):
+            return self.kind(f, e.value, env, depth + 1)
+        if isinstance(e, (ast.ListComp, ast.GeneratorExp, ast.SetComp)):
+            env2 = dict(env)
+            for g in e.generators:
+                self._bind(f, g.target, self.kind(f, g.iter, env2, depth + 1), env2)
+            return self.kind(f, e.elt, env2, depth + 1)
+        if isinstance(e, ast.Dict):
+            return worst(*[self.kind(f, v, env, depth + 1) for v in e.values])
+        return "CLEAN"
+
+    def _bind(self, f, target, k, env):
+        for t in ast.walk(target):
+            if isinstance(t, ast.Name):
+                env[t.id] = k
+
+    def env_of(self, f: FuncInfo) -> Dict[str, str]:
+        """flow-insensitive local kinds: worst over all assignments (2 passes)."""
+        env: Dict[str, str] = {}
+        if f.parent is not None:
+            env.update(self.env_of(f.parent))
+        for _ in range(3):
+            for n in own_nodes(f.node):
+                if isinstance(n, ast.Assign):
+                    k = self.kind(f, n.value, env)
+                    for t in n.targets:
+                        if isinstance(t, (ast.Tuple, ast.List)) and isinstance(n.value, (ast.Tuple, ast.List)) and len(t.elts) == len(n.value.elts):
+                            for tt, vv in zip(t.elts, n.value.elts):
+                                self._bind_worst(f, tt, self.kind(f, vv, env), env)
+                        else:
+                            self._bind_worst(f, t, k, env)
+                elif isinstance(n, ast.AnnAssign) and n.value is not None:
+                    self._bind_worst(f, n.target, self.kind(f, n.value, env), env)
+                elif isinstance(n, (ast.For, ast.AsyncFor)):
+                    self._bind_worst(f, n.target, self.kind(f, n.iter, env), env)
+                elif isinstance(n, ast.comprehension):
+                    self._bind_worst(f, n.target, self.kind(f, n.iter, env), env)
+                elif isinstance(n, ast.Call) and isinstance(n.func, ast.Attribute) and n.func.attr in ("append", "extend", "add", "insert") and isinstance(n.func.value, ast.Name):
+                    k = worst(*[self.kind(f, a, env) for a in n.args])
+                    env[n.func.value.id] = worst(env.get(n.func.value.id, "CLEAN"), k)
+        return env
+
+    def _bind_worst(self, f, target, k, env):
+        for t in ast.walk(target):
+            if isinstance(t, ast.Name) and isinstance(t.ctx, ast.Store):
+                env[t.id] = worst(env.get(t.id, "CLEAN"), k) if t.id in env else k
+
+    # ------------------------------------------------------------ fixpoint
+    def solve(self):
+        res = self.ctx.r
+        for _ in range(6):
+            changed = False
+            for f in self.funcs:
+                env = self.env_of(f)
+                # returns
+                rk = "CLEAN"
+                for n in own_nodes(f.node):
+                    if isinstance(n, ast.Return) and n.value is not None:
+                        rk = worst(rk, self.kind(f, n.value, env))
+                if self.ret_kind.get(f.qualname) != rk:
+                    self.ret_kind[f.qualname] = rk
+                    changed = True
+                # calls into other emitters: propagate argument kinds
+                for s in res.callsites(f, None):
+                    for t in s.targets:
+                        if t.module.name not in EMITTER_MODULES or t.qualname not in (self.logic | self.runner):
+                            continue
+                        params = [a.arg for a in t.node.args.args if a.arg not in ("self", "cls")]
+                        for pn, a in zip(params, s.call.args):
+                            k = self.kind(f, a, env)
+                            old = self.param_kind.get((t.qualname, pn), "CLEAN")
+                            if ORDER.index(k) > ORDER.index(old):
+                                self.param_kind[(t.qualname, pn)] = k
+                                changed = True
+                        for kw in s.call.keywords:
+                            if kw.arg:
+                                k = self.kind(f, kw.value, env)
+                                old = self.param_kind.get((t.qualname, kw.arg), "CLEAN")
+                                if ORDER.index(k) > ORDER.index(old):
+                                    self.param_kind[(t.qualname, kw.arg)] = k
+                                    changed = True
+            if not changed:
+                break
+
+
+def template_context(js: ast.JoinedStr, idx: int) -> str:
+    """Syntactic context the template text puts interpolation *idx* in."""
+    text = ""
+    for v in js.values[:idx]:
+        if isinstance(v, ast.Constant):
+            text += str(v.value)
+        else:
+            text += "X"
+    line = text.split("\n")[-1]
+    i = 0
+    state = "code"
+    while i < len(line):
+        c = line[i]
+        if state == "code":
+            if line.startswith('"""', i) or line.startswith("'''", i):
+                state = "doc"
+                i += 3
+                continue
+            if c == "#":
+                return "comment"
+            if c == "'":
+                state = "sq"
+            elif c == '"':
+                state = "dq"
+        elif state == "doc":
+            if line.startswith('"""', i) or line.startswith("'''", i):
+                state = "code"
+                i += 3
+                continue
+        elif state in ("sq", "dq"):
+            if c == "\\":
+                i += 2
+                continue
+            if (state == "sq" and c == "'") or (state == "dq" and c == '"'):
+                state = "code"
+        i += 1
+    return state
+
+
+def is_message(f: FuncInfo, node: ast.AST) -> bool:
+    for a in ancestors(f, node):
+        if isinstance(a, ast.Raise):
+            return True
+        if isinstance(a, ast.Call):
+            fn = a.func
+            nm = fn.id if isinstance(fn, ast.Name) else (fn.attr if isinstance(fn, ast.Attribute) else "")
+            if nm in MESSAGE_CALLS or (isinstance(fn, ast.Attribute) and dotted(fn.value) in ("logger", "logging", "parser")):
+                return True
+        if isinstance(a, (ast.FunctionDef, ast.AsyncFunctionDef)):
+            break
+    return False
+
+
+# functions whose f-strings build *docstring text* (their result is placed between triple quotes by the caller)
+DOC_BUILDERS = {"generate_action_docstring": "returns the body of a docstring; callers emit it between triple quotes"}
+# functions whose f-strings build a *data string* that callers pass through literal()
+DATA_BUILDERS = {"_target_expression": "re-spelled transition target; render_transition_value wraps it in literal()",
+                 "_delay_key": "delay key rendered through literal() by render_after_map"}
 
 
 def run(ctx):
-    ctx.c.note("C17.R7 template taint: not run in this revision")
+    c = ctx.c
+    t = Taint(ctx)
+    c.floor("R7", "strategy roots (generate_logic / generate_runner)", min(t.n_roots), 5)
+    t.solve()
+    n = 0
+    by_kind = {}
+    from sa.util import guards_at
+    for f in t.funcs:
+        env = None
+        if f.name in DATA_BUILDERS:
+            c.ob("R7", True, f, "data-builder", f"accepted: {DATA_BUILDERS[f.name]}", f.node, nontrivial=False)
+            continue
+        unverified = f.qualname in t.runner and f.qualname not in t.logic
+        for js in own_nodes(f.node):
+            if not isinstance(js, ast.JoinedStr) or is_message(f, js):
+                continue
+            # nested f-strings inside a format spec / another interpolation are visited on their own
+            for i, v in enumerate(js.values):
+                if not isinstance(v, ast.FormattedValue):
+                    continue
+                if env is None:
+                    env = t.env_of(f)
+                k = "LITERAL" if v.conversion == ord("r") else t.kind(f, v.value, env)
+                cx = template_context(js, i)
+                if f.name in DOC_BUILDERS and cx == "code":
+                    cx = "doc"
+                # X.isidentifier() guard makes a raw name an identifier
+                if k == "RAW" and isinstance(v.value, ast.Name):
+                    for a, pol in guards_at(f, js):
+                        for y in ast.walk(a):
+                            if isinstance(y, ast.Call) and isinstance(y.func, ast.Attribute) and y.func.attr == "isidentifier" and \
+                                    norm(y.func.value) == v.value.id and pol:
+                                k = "IDENT"
+                # the result of a doc builder split into lines is docstring text
+                if k == "CODE" and cx == "doc":
+                    k = "DOCSAFE" if _from_doc_builder(f, v.value) else k
+                n += 1
+                by_kind[(k, cx)] = by_kind.get((k, cx), 0) + 1
+                ok = k in SAFE[cx]
+                if not ok and k == "ESCAPED" and cx in ("sq", "dq") and not unverified:
+                    # a line break inside a one-line quoted literal can only make the file unparsable; this file is
+                    # syntax-checked before it is written (C17.R2), so the outcome is a refusal, not a wrong file
+                    c.ob("R7", True, f, f"interp:{cx}:{k}:{norm(v.value)[:40]}",
+                         "escape_for_string() value in a one-line literal of a file that is syntax-verified before writing", v)
+                    continue
+                if ok:
+                    if k != "CLEAN":
+                        c.ob("R7", True, f, f"interp:{cx}:{k}:{norm(v.value)[:40]}", f"{k} value in {cx} context", v)
+                    continue
+                why = {"RAW": "comes from the machine JSON unchanged",
+                       "ESCAPED": "went through escape_for_string(), which escapes quotes and backslashes but not line breaks",
+                       "DOCSAFE": "docstring_safe() does not make a value safe inside a single-quoted literal / as code",
+                       "LITERAL": "is a complete literal placed inside another quoted literal",
+                       "CODE": "is a composed code fragment placed inside a quoted literal"}.get(k, k)
+                where = "the runner file, which is written without being parsed" if unverified else "generated source"
+                c.ob("R7", False, f, f"interp:{cx}:{k}:{norm(v.value)[:40]}",
+                     f"'{{{norm(v.value)[:60]}}}' is interpolated into {where} in {cx} context but {why}: a name containing a quote, "
+                     f"backslash or line break changes the structure of the generated file (data becomes code, or the file stops parsing)", v)
+    c.floor("R7", "interpolations in emitting f-strings", n, 150)
+    c.extra["template_taint"] = {"interpolations": n, "by_kind_and_context": {f"{k}@{cx}": v for (k, cx), v in sorted(by_kind.items())}}
+
+
+def _from_doc_builder(f, expr) -> bool:
+    names = {n_.id for n_ in ast.walk(expr) if isinstance(n_, ast.Name)}
+    seen = set()
+    work = list(names)
+    while work:
+        nm = work.pop()
+        if nm in seen:
+            continue
+        seen.add(nm)
+        for a in assignments_to(f, nm):
+            src = a.iter if isinstance(a, (ast.For, ast.AsyncFor)) else getattr(a, "value", None)
+            if src is None:
+                continue
+            for y in ast.walk(src):
+                if isinstance(y, ast.Call) and (isinstance(y.func, ast.Name) and y.func.id in DOC_BUILDERS):
+                    return True
+                if isinstance(y, ast.Name):
+                    work.append(y.id)
+    return False
